@@ -45,6 +45,7 @@ def compare(vec, line, v, what):
     def rep(kind, desc):
         v.violation("%s kind=%s" % (key, kind), desc, {"vector": {k: vec[k] for k in vec if k not in ("pre", "post") or len(vec[k]) < 400}, "observed": {k: (o[k] if len(str(o[k])) < 800 else str(o[k])[:800]) for k in o}, "where": what})
         return False
+    if o["status"] == "skipped": return True
     if o["status"].startswith("fault") or o["status"].startswith("crash"):
         return rep("fault", "%s: %s faulted (%s), value/path %d bytes" % (what, vec["op"], o["status"], len(vec["arg"])))
     ok = True
@@ -134,6 +135,7 @@ def finish(evs, outs, v):
     for ev, line in zip(evs, outs):
         o = parse(line)
         key = vkey(ev)
+        if o["status"] == "skipped": continue
         if o["status"].startswith("fault") or o["status"].startswith("crash"):
             v.violation(key + " kind=fault", "random %s call faulted (%s)" % (ev["op"], o["status"]), {"event": ev}); continue
         if o["canary"] != "0" or o.get("dirty") == "1":
@@ -173,6 +175,7 @@ def sa_compare(vec, line, v):
     def rep(kind, desc):
         v.violation("%s kind=%s" % (key, kind), desc, {"vector": {k: (vec[k] if len(str(vec[k])) < 600 else "...") for k in vec}, "observed": {k: str(o[k])[:600] for k in o}})
         return False
+    if o["status"] == "skipped": return True
     if o["status"].startswith("fault") or o["status"].startswith("crash"):
         return rep("fault", "%s of %d strings (requested %s) faulted: %s (read/write outside the exact-extent buffers)" % (vec["op"], len(vec["list"]), vec.get("req"), o["status"]))
     if vec["op"] == "pack":
@@ -233,6 +236,7 @@ def sa_finish(evs, outs, v):
     done = []
     for ev, line in zip(evs, outs):
         o = sa_parse(line)
+        if o["status"] == "skipped": continue
         if o["status"].startswith("fault") or o["status"].startswith("crash"):
             v.violation("strarr op=%s kind=fault" % ev["op"], "random string-array call faulted (%s)" % o["status"], {"event": ev}); continue
         e = dict(ev)
